@@ -17,6 +17,7 @@ LEVEL = "exploration"
 TECHNIQUE = "deterministic simulation re-executed in two fresh interpreters with different PYTHONHASHSEED and shifted wall clocks (digest equality of the full order/fill/status/profit ledger), plus exactly-once delivery against an independent re-statement of the listener filters, merge order and clock checks inside each run"
 BUDGET = {"quick": {"runs": 220, "wall": 50}, "thorough": {"runs": 12000, "wall": 900}}
 BATCH = 12
+DETERMINISM_SEEDS_CAP = 2  # each evaluation already is 12 backtests x 3 interpreters
 RULE = (
     "one evaluation = one batch of %d seeded backtests (1-4 market files, equal/unequal lengths, identical publish times across markets, event_processing "
     "on/off with event groups, listener filters inplay / seconds_to_start / max_inplay_seconds incl. exact-edge values, exposure limits at exact float "
